@@ -276,6 +276,18 @@ def run(tier, res, force_search=False):
     probes.debiasers_small_samples(random.Random(C.seed() * 7919 + 73), n_small, res, problems_all)
     res.extra["small_window_samples"] = {"composed_cases": n_comp, "real_debiaser_cases": n_small, "wall_s": round(_time.time() - t0, 2)}
 
+    # ---- leap-year-only year sets through ALL eight debiasers (own PRNG stream).  Quantifier covered: "the leap-year-only year
+    # sets that a one-day window on day 366 selects" x "all debiasers that use the windows": the sample of the day-366 window has
+    # non-consecutive years (stride 4, 8 across 1900 / 2100) in obs, cm_hist and cm_future alike; every per-window computation
+    # that uses the years of its sample (ISIMIP trend removal / restoration for tas, psl, rlds with and without the significance
+    # test; the CDFt / QDM year loops) must still assign these steps -- a raise or a non-finite step is a violation with its input
+    n_leap = 5 if tier == "quick" else 40
+    if force_search or not lean_ok or mismatches:
+        n_leap *= 3
+    t0 = _time.time()
+    probes.leap_year_sets_all_debiasers(random.Random(C.seed() * 7919 + 79), n_leap, res, problems_all)
+    res.extra["leap_year_sets_all_debiasers"] = {"cases": n_leap, "wall_s": round(_time.time() - t0, 2)}
+
     # ---- thorough: exhaustive enumeration of (first day, last day, step) on the real centre function (supporting test)
     if tier == "thorough":
         from ibicus.utils import RunningWindowOverDaysOfYear
